@@ -164,6 +164,11 @@ def _flow_scn(rng, g, ops, n_updates=1, with_mask=None, with_base=None, acc=Fals
                 lines.append("acc s " + hx(rng.choice([1.0, 0.0, 2.5, -1.0])))
         if basins:
             lines.append("basins")
+            if rng.random() < 0.3:
+                # base levels changed after the delineation: pits() must follow them at once
+                b = rng.sample(range(g.n), rng.randint(1, min(3, g.n)))
+                lines.append("set_base " + " ".join(map(str, b)))
+                lines.append("pits")
     return lines
 
 
@@ -922,7 +927,7 @@ _lvl("C18", "proof",
 
 # elevation magnitudes whose products with K*dt*A^m overflow binary64 are left to the corpus
 # scenario of finding D13 (the eroder has no overflow handling)
-SPL_FAMILIES = ["random", "random", "ints", "ints2", "steps", "plateau_eps", "negative", "plane", "cones", "zero"]
+SPL_FAMILIES = ["random", "random", "ints", "ints2", "steps", "plateau_eps", "negative", "plane", "cones", "zero", "gentle", "gentle"]
 
 
 def gen_spl(rng, tier):
